@@ -57,6 +57,12 @@ template <class S, int N> struct Canon<Geometry::VectorT<S, N>> {
     static V gen(Rng &r, int special) { V v; for (int i = 0; i < N; ++i) v[i] = Canon<S>::gen(r, special + i); return v; }
     static V gen_text(Rng &r, int special) { V v; for (int i = 0; i < N; ++i) v[i] = Canon<S>::gen_text(r, special + i); return v; }
 };
+template <> struct Canon<std::map<HalfEdgeHandle, int>> {
+    using MT = std::map<HalfEdgeHandle, int>;
+    static std::string enc(const MT &v) { std::string s; for (auto &kv : v) s += std::to_string(kv.first.idx()) + ":" + std::to_string(kv.second) + ","; return s + "|" + std::to_string(v.size()); }
+    static MT gen(Rng &r, int s) { return gen_text(r, s); }
+    static MT gen_text(Rng &r, int) { MT v; for (int i = 0, n = (int)r.below(4); i < n; ++i) v[HalfEdgeHandle((int)r.below(50))] = (int)r.below(1000); return v; }
+};
 template <> struct Canon<std::vector<double>> {
     static std::string enc(const std::vector<double> &v) { std::string s; for (double x : v) s += Canon<double>::enc(x); return s + "|" + std::to_string(v.size()); }
     static std::vector<double> gen(Rng &r, int s) { return gen_text(r, s); }
@@ -114,7 +120,7 @@ inline const std::vector<IoType> &io_types() {
         {"vh", nullptr, &io_prop_T<VH>}, {"eh", nullptr, &io_prop_T<EH>}, {"heh", nullptr, &io_prop_T<HEH>}, {"fh", nullptr, &io_prop_T<FH>}, {"hfh", nullptr, &io_prop_T<HFH>}, {"ch", nullptr, &io_prop_T<CH>},
         {"2d", "vec2d", &io_prop_T<Vec2d>}, {"3d", "vec3d", &io_prop_T<Vec3d>}, {"4d", "vec4d", &io_prop_T<Vec4d>}, {"2f", "vec2f", &io_prop_T<Vec2f>}, {"3f", "vec3f", &io_prop_T<Vec3f>}, {"4f", "vec4f", &io_prop_T<Vec4f>},
         {"2u32", "vec2ui", &io_prop_T<Vec2ui>}, {"3u32", "vec3ui", &io_prop_T<Vec3ui>}, {"4u32", "vec4ui", &io_prop_T<Vec4ui>}, {"2i32", "vec2i", &io_prop_T<Vec2i>}, {"3i32", "vec3i", &io_prop_T<Vec3i>}, {"4i32", "vec4i", &io_prop_T<Vec4i>},
-        {nullptr, "char", &io_prop_T<char>}, {nullptr, "vector_double", &io_prop_T<std::vector<double>>},
+        {nullptr, "char", &io_prop_T<char>}, {nullptr, "vector_double", &io_prop_T<std::vector<double>>}, {nullptr, "map_heh_int", &io_prop_T<std::map<HalfEdgeHandle, int>>},
     };
     return t;
 }
